@@ -233,6 +233,10 @@ def run(ck):
         for j, (f, t) in enumerate(zip(prog["files"], texts)):
             kind = "S" if (j == 0 or rng.random() < 0.5) else "R"
             files.append((kind, rng.choice(["f%d.slice" % j, "dir/f%d.slice" % j, "ü%d.slice" % j]), t))
+        if rng.random() < 0.3:
+            # a file that declares a module (with attributes) and nothing else
+            j = len(files)
+            files.append((rng.choice("SR"), "only_module%d.slice" % j, rng.choice(["", "[[x::file(\"f\")]]\n"]) + rng.choice(["", "[x::mod] "]) + "module Empty%d\n" % j))
         args = [(rng.choice(["k", "key two", "ü", "a"]) + str(q), rng.choice(["", "v", "v,w", "x=y", "ü "])) for q in range(rng.choice([0, 0, 1, 2, 3]))]
         spec = ",".join("%s=%s" % (k.replace(",", "\\,").replace("=", "\\="), v.replace(",", "\\,").replace("=", "\\=")) for k, v in args)
         gens = [("gen-ok-1", spec)] + ([("gen-ok-2", "other=1")] if rng.random() < 0.3 else [])
